@@ -11,6 +11,7 @@ import ast, json, os, random, re, shutil, subprocess, sys, tempfile
 from concurrent.futures import ThreadPoolExecutor
 
 HERE = os.path.dirname(os.path.dirname(os.path.abspath(__file__)))
+VERIF_SNAPSHOT = None
 REPO = "/repo"
 PKG = os.path.join(REPO, "pypika_tortoise")
 CMP = {ast.Eq: "!=", ast.NotEq: "==", ast.Lt: "<=", ast.LtE: "<", ast.Gt: ">=", ast.GtE: ">", ast.Is: "is not", ast.IsNot: "is", ast.In: "not in", ast.NotIn: "in"}
@@ -105,7 +106,7 @@ def evaluate(m, wdir):
             c = "C%02d" % i
             env = dict(os.environ, VERIF_REPO_DIR=wdir, VERIF_JOBS="5", VERIF_OUT_DIR=os.path.join(wdir, "_out"))
             try:
-                r = subprocess.run(["./check", c, "quick"], cwd=HERE, env=env, capture_output=True, text=True, timeout=600)
+                r = subprocess.run(["./check", c, "quick"], cwd=VERIF_SNAPSHOT or HERE, env=env, capture_output=True, text=True, timeout=600)
                 if r.returncode == 1:
                     sigs = re.findall(r"signature: (\S+)", r.stdout)
                     killed.append({"check": c, "sig": sigs[0] if sigs else "?"})
@@ -128,11 +129,20 @@ def main():
         d = os.path.join(base, "w%d" % k)
         sh("rsync -a --exclude .git --exclude __pycache__ %s/ %s/" % (REPO if k == 0 else dirs[0], d))
         dirs.append(d)
+    # the committed state of /verif is copied as well: fixes recorded later would otherwise fire their regression replays on the old snapshot
+    global VERIF_SNAPSHOT
+    VERIF_SNAPSHOT = os.path.join(base, "verif")
+    os.makedirs(VERIF_SNAPSHOT)
+    sh("git -C %s archive HEAD | tar -x -C %s" % (HERE, VERIF_SNAPSHOT))
     # everything below works on the snapshot in the scratch copies, so /repo may move on while the campaign runs
     ms = all_mutants(dirs[0])
     for d in dirs:
         for rel in sorted({m["file"] for m in ms}):
             shutil.copy(os.path.join(d, rel), os.path.join(d, rel + ".orig"))
+    if "--match" in sys.argv:
+        # re-evaluate the mutants listed in a file of earlier results (matched by file, line, kind and original text)
+        want = {(r["file"], r["line"], r["kind"], r["before"]) for r in (json.loads(l) for l in open(sys.argv[sys.argv.index("--match") + 1]))}
+        ms = [m for m in ms if (m["file"], m["line"], m["kind"], m["before"]) in want]
     rnd = random.Random(seed)
     rnd.shuffle(ms)
     skip = int(sys.argv[sys.argv.index("--skip") + 1]) if "--skip" in sys.argv else 0
